@@ -1,7 +1,7 @@
 (** Extraction of the executable model (ExtrOcamlBasic only; numbers stay
     extracted inductives). *)
 From Coq Require Import Extraction ExtrOcamlBasic.
-From Oal Require Import Text Position Tag Unify Loader Merge SpecUri.
+From Oal Require Import Text Position Tag Unify Loader Merge SpecUri Cast Cycles.
 Extraction Language OCaml.
 Separate Extraction
   Text.len8s Text.len16s Text.crlf_wf Text.split_at8 Text.utf16
@@ -10,4 +10,6 @@ Separate Extraction
   Unify.unify_all Unify.reduce Unify.unify
   Loader.load Loader.topo_kahn Loader.join
   Merge.into_openapi
-  SpecUri.pattern SpecUri.path_params SpecUri.xfer_id SpecUri.status_of_number SpecUri.status_of_literal SpecUri.braces.
+  SpecUri.pattern SpecUri.path_params SpecUri.xfer_id SpecUri.status_of_number SpecUri.status_of_literal SpecUri.braces
+  Cast.check Cast.admits Cast.cast_ok Cast.known
+  Cycles.cycles_check.
